@@ -18,6 +18,10 @@ structure WF (g : GraphVal) : Prop where
   instKind : ∀ n ∈ g.nodes, ∀ slot sat, n.kind = .instantiation slot sat → n.ty.kind = .instance
   /-- the aliased definition of a definition is a type -/
   defAliasType : ∀ n ∈ g.nodes, ∀ m, n.defAlias = some m → kindOf g m = .type
+  /-- a definition is exported under one name only (`export()` on a definition node renames
+      it: the encoder exports a definition under `Node.export`, the last name, and drops the
+      others — known finding `enc-definition-renamed-by-export`) -/
+  defNames : ∀ e ∈ g.exports, ∀ n, g.node? e.2 = some n → n.isDefinition = true → n.exportName = some e.1
   /-- the satisfied-argument set of an instantiation is the set of its argument edges -/
   satOk : ∀ n ∈ g.nodes, ∀ slot sat p, n.kind = .instantiation slot sat → g.pkg? slot = some p →
     unsatisfied p sat = unsatisfiedByArgs n p
@@ -27,6 +31,9 @@ def wfCheck (g : GraphVal) : Bool :=
   g.nodes.all (fun n => decide (n.kind = .definition → n.ty.kind = .type)) &&
   g.nodes.all (fun n => match n.kind with | .instantiation _ _ => decide (n.ty.kind = .instance) | _ => true) &&
   g.nodes.all (fun n => match n.defAlias with | some m => decide (kindOf g m = .type) | none => true) &&
+  g.exports.all (fun e => match g.node? e.2 with
+    | some n => !n.isDefinition || decide (n.exportName = some e.1)
+    | none => true) &&
   g.nodes.all (fun n => match n.kind with
     | .instantiation slot sat => match g.pkg? slot with
       | some p => decide (unsatisfied p sat = unsatisfiedByArgs n p)
@@ -35,14 +42,17 @@ def wfCheck (g : GraphVal) : Bool :=
 
 theorem wfCheck_sound {g : GraphVal} (h : wfCheck g = true) : WF g := by
   simp only [wfCheck, Bool.and_eq_true, decide_eq_true_eq, List.all_eq_true] at h
-  obtain ⟨⟨⟨⟨h1, h2⟩, h5⟩, h3⟩, h4⟩ := h
-  refine ⟨h1, fun n hn => h2 n hn, ?_, ?_, ?_⟩
+  obtain ⟨⟨⟨⟨⟨h1, h2⟩, h5⟩, h3⟩, h6⟩, h4⟩ := h
+  refine ⟨h1, fun n hn => h2 n hn, ?_, ?_, ?_, ?_⟩
   · intro n hn slot sat hk
     have := h5 n hn
     simpa [hk] using this
   · intro n hn m hm
     have := h3 n hn
     simpa [hm] using this
+  · intro e he n hn hd
+    have := h6 e he
+    simpa [hn, hd] using this
   · intro n hn slot sat p hk hp
     have := h4 n hn
     simpa [hk, hp] using this
@@ -69,12 +79,13 @@ def aggKind (agg : Agg) (name : Str) : Option Kind := (amGet agg.imports (agg.ca
 structure AggOk (g : GraphVal) (agg : Agg) : Prop where
   /-- import names are distinct (`IndexMap`) -/
   keysNodup : (agg.imports.map (·.1)).Nodup
-  /-- an instance import of a named interface is imported under the name of the interface
-      or the interface is mentioned by nothing else: no import is named like it, depends on it
-      or is of it (fails exactly for the shape of known finding
-      `enc-explicit-interface-import-merged`) -/
+  /-- an instance import of a named interface either has a name that does not stand for the
+      interface (then nothing is reused or recorded for it), or is imported under the name of
+      the interface, or — a different but semver-compatible version — the interface is mentioned
+      by nothing else -/
   ifaceNamed : ∀ e ∈ fixedImports agg, e.2.kind = .instance → e.2.iface = none ∨ e.2.iface = some e.1 ∨
-    ∃ i, e.2.iface = some i ∧ privIn (fixedImports agg) i ∧ ∀ e' ∈ fixedImports agg, e'.1 ≠ e.1 → e'.2.iface ≠ some i
+    ∃ i, e.2.iface = some i ∧ (providesIface e.1 i = false ∨
+      (privIn (fixedImports agg) i ∧ ∀ e' ∈ fixedImports agg, e'.1 ≠ e.1 → e'.2.iface ≠ some i))
   /-- every unsatisfied argument resolves to an import of its own kind -/
   implicitKind : ∀ n ∈ g.nodes, ∀ slot sat p, n.kind = .instantiation slot sat → g.pkg? slot = some p →
     ∀ r ∈ unsatisfied p sat, aggKind agg r.name = some r.ty.kind
@@ -85,7 +96,8 @@ def ifaceEntryOk (l : List (Str × ItemTy)) (e : Str × ItemTy) : Bool :=
   e.2.kind != .instance ||
   match e.2.iface with
   | none => true
-  | some i => i == e.1 || (decide (privIn l i) && l.all fun e' => e'.1 == e.1 || e'.2.iface != some i)
+  | some i => i == e.1 || !providesIface e.1 i ||
+      (decide (privIn l i) && l.all fun e' => e'.1 == e.1 || e'.2.iface != some i)
 
 def aggOkCheck (g : GraphVal) (agg : Agg) : Bool :=
   decide (agg.imports.map (·.1)).Nodup &&
@@ -109,9 +121,10 @@ theorem aggOkCheck_sound {g : GraphVal} {agg : Agg} (h : aggOkCheck g agg = true
     | some i =>
       simp only [hif, hk, bne_self_eq_false, Bool.false_or, Bool.or_eq_true, beq_iff_eq, Bool.and_eq_true,
         decide_eq_true_eq, List.all_eq_true, bne_iff_ne, ne_eq] at this
-      rcases this with h | ⟨h3, h4⟩
+      rcases this with (h | h) | ⟨h3, h4⟩
       · exact Or.inr (Or.inl (by rw [h]))
-      · refine Or.inr (Or.inr ⟨i, rfl, h3, ?_⟩)
+      · exact Or.inr (Or.inr ⟨i, rfl, Or.inl (by simpa using h)⟩)
+      · refine Or.inr (Or.inr ⟨i, rfl, Or.inr ⟨h3, ?_⟩⟩)
         intro e' he' hne
         rcases h4 e' he' with h5 | h5
         · exact absurd h5 hne
